@@ -50,6 +50,17 @@ pub fn gen_dict_program(t: &mut Tape) -> DictOut {
         Lit::Str(format!("{}y", "ü".repeat(40))),
     ];
     let nk = 2 + t.weighted(&[28, 26, 16, 10, 6, 3, 3, 3, 3, 2]);
+    // one dictionary in 25 is big: 30-70 keys (past whatever small-table size, growth step or bucket count there is)
+    let big = t.chance(1, 25);
+    let mut pool = pool;
+    let nk = if big {
+        for i in 0..70 {
+            pool.push(Lit::Str(format!("key{}{}", (b'a' + (i % 26) as u8) as char, i / 26)));
+        }
+        30 + t.pick(41)
+    } else {
+        nk
+    };
     while keys.len() < nk {
         let k = pool[t.pick(pool.len())].clone();
         if !keys.contains(&k) {
